@@ -516,5 +516,8 @@ def run(chk):
     from . import c20
     from ..report import RuleAlias
     chk.guard("R07.7", "lift-guard", check_lift_guard, chk, F)
+    # ... and the summary that guard reads is the summary of the script's paths (shared with C12)
+    from . import limits as _limits
+    chk.guard("R07.8", "timelock-composition", _limits.check_timelock_composition, chk, F, "R07.8")
     chk.guard("R07.6", "tree-iterators", c20.check_tree_iterators, RuleAlias(chk, {"R20.10": "R07.6"}, "the traversal the "
               "lifts fold over"), F)
